@@ -101,6 +101,20 @@ func (ip *IPv4) getIPv4OptionSize() uint8 {
 // SerializeTo writes the serialized form of this layer into the
 // SerializationBuffer, implementing gopacket.SerializableLayer.
 func (ip *IPv4) SerializeTo(b gopacket.SerializeBuffer, opts gopacket.SerializeOptions) error {
+	// An IPv4 header has room for at most 40 bytes of options; getIPv4OptionSize
+	// counts in a uint8 and would wrap around for longer lists, so that the
+	// options below were written beyond the bytes reserved for them.
+	total := 0
+	for _, opt := range ip.Options {
+		if opt.OptionType == 0 || opt.OptionType == 1 {
+			total++
+		} else {
+			total += int(opt.OptionLength)
+		}
+	}
+	if total > 40 {
+		return fmt.Errorf("IPv4 options take %d bytes, at most 40 fit into the header", total)
+	}
 	optionLength := ip.getIPv4OptionSize()
 	bytes, err := b.PrependBytes(20 + int(optionLength))
 	if err != nil {
